@@ -981,6 +981,7 @@ var Rules = []report.Rule{
 	{ID: "S28", Floor: 1, Props: []string{"C19"}, Text: "Emitter.Emit is called only inside the loop body"},
 	{ID: "S29", Floor: 6, Props: []string{"C03", "C08", "C19"}, Text: "SchedulerParams → Config → Scheduler forwarding of Concurrency, ContinueOnError, Emitter"},
 	{ID: "S30", Floor: 1, Props: []string{"C05", "C09", "C07"}, Text: "the only blocking operation of the scheduler loop goroutine (outside its deferred closures) is its single select"},
+	{ID: "S31", Floor: 3, Props: []string{"C19", "C05"}, Text: "the state ticker is created only when there is an emitter, with the configured flush frequency, and Config.New replaces an unset (zero) frequency by a positive constant before starting the loop (time.NewTicker panics on a non-positive interval, on the loop's goroutine)"},
 	{ID: "L5", Floor: 2, Props: []string{"C19"}, Text: "the scheduler-emitter adapter forwards the state unchanged"},
 }
 
@@ -1021,6 +1022,7 @@ func Run(repo *load.Repo, s *report.Sink) (err error) {
 		{"conservation", []string{"S25"}, m.ruleConservation},
 		{"state report", []string{"S26", "S28"}, m.ruleState},
 		{"plumbing", []string{"S29", "L5"}, m.rulePlumbing},
+		{"ticker", []string{"S31"}, m.ruleTicker},
 	}
 	for _, g := range groups {
 		func() {
